@@ -486,34 +486,36 @@ def log2floor : Nat → Nat → Nat
   | 0, _ => 0
   | fuel + 1, n => if n ≤ 1 then 0 else 1 + log2floor fuel (n / 2)
 
+/-- `l += d; while (l >= end_tab) { d >>= 1; if (d < SWITCH_CASE_SIZE) { d = 0; break; } l -= d; }` in units of
+    table entries (`n` = number of entries) -/
+def fixup (n : Nat) : Nat → Nat → Nat → Nat × Nat
+  | 0, l, d => (l, d)
+  | f + 1, l, d => if l ≥ n then (if d / 2 = 0 then (l, 0) else fixup n f (l - d / 2) (d / 2)) else (l, d)
+
+/-- key / address field of table entry `k` -/
+def tkey (t : List (Int × Nat)) (k : Nat) : Int := (t.getD k (0, 0)).1
+def taddr (t : List (Int × Nat)) (k : Nat) : Nat := (t.getD k (0, 0)).2
+
 /-- the binary search of f_switch in units of table entries (`d` = 0 stands for `d < SWITCH_CASE_SIZE`);
-    result: target address or `none` = default -/
+    result: target address or `none` = default.  `l - d` is a C pointer subtraction: it never goes below the
+    table start because `l + 1` is a multiple of `2 d` (not modelled as a crash; see notes) -/
 def bsearch (t : List (Int × Nat)) (s : Int) : Nat → Nat → Nat → Option Nat
   | 0, _, _ => none
   | fuel + 1, l, d =>
-    let n := t.length
-    let key := fun (k : Nat) => (t.getD k (0, 0)).1
-    let addr := fun (k : Nat) => (t.getD k (0, 0)).2
-    let r := key l
-    if s < r then
-      if d == 0 then
+    if s < tkey t l then
+      if d = 0 then
         -- entry before l is the lower bound of a range ending at l?
-        if l ≥ 1 ∧ addr (l - 1) ≤ 1 ∧ s ≥ key (l - 1) then some (addr l) else none
+        if l ≥ 1 ∧ taddr t (l - 1) ≤ 1 ∧ s ≥ tkey t (l - 1) then some (taddr t l) else none
       else bsearch t s fuel (l - d) (d / 2)
-    else if s > r then
-      if d == 0 then
-        if addr l ≤ 1 ∧ l + 1 < n ∧ s ≤ key (l + 1) then some (addr (l + 1)) else none
+    else if s > tkey t l then
+      if d = 0 then
+        if taddr t l ≤ 1 ∧ l + 1 < t.length ∧ s ≤ tkey t (l + 1) then some (taddr t (l + 1)) else none
       else
-        -- l += d; while (l >= end_tab) { d >>= 1; if (d < SIZE) { d = 0; break; } l -= d; }
-        let rec fix (fuel2 : Nat) (l d : Nat) : Nat × Nat :=
-          match fuel2 with
-          | 0 => (l, d)
-          | f + 1 => if l ≥ n then (if d / 2 == 0 then (l, 0) else fix f (l - d / 2) (d / 2)) else (l, d)
-        let (l', d') := fix 64 (l + d) d
-        if l' == n then none else bsearch t s fuel l' (d' / 2)
+        if (fixup t.length (d + 1) (l + d) d).1 = t.length then none
+        else bsearch t s fuel (fixup t.length (d + 1) (l + d) d).1 ((fixup t.length (d + 1) (l + d) d).2 / 2)
     else
       -- found the key; it may be the lower bound of a range
-      if addr l ≤ 1 then some (addr (l + 1)) else some (addr l)
+      if taddr t l ≤ 1 then some (taddr t (l + 1)) else some (taddr t l)
 
 /-- f_switch on an integer table -/
 def switchLookup (tab : SwTable) (s : Int) : Option Nat :=
